@@ -55,7 +55,7 @@ func Accept(cfg Cfg, t *T, opt string) (Verdict, string) {
 		if opt == "" {
 			return MustAccept, ""
 		}
-		return Either, "option on []byte selects the generic slice treatment"
+		return Either, "option-on-bytes"
 	case KPtr:
 		if ptrToMap(t) {
 			return MustReject, "pointer to map cannot be encoded"
@@ -81,40 +81,51 @@ func Accept(cfg Cfg, t *T, opt string) (Verdict, string) {
 		case CBad:
 			return MustReject, "element not encodable"
 		}
-		if opt != "" && opt != "proto" {
-			v = worst(v, Either)
+		if opt != "" && opt != "proto" && v != Either {
+			v, why = Either, "ignored-option-on-slice"
 		}
 		return v, why
 	case KMap:
 		if !t.Key.Comparable() {
 			return MustReject, "map key not comparable"
 		}
-		kv, why := Accept(cfg, t.Key, "")
+		kv, kwhy := Accept(cfg, t.Key, "")
 		if kv == MustReject {
-			return kv, why
+			return kv, kwhy
 		}
-		vv, why := Accept(cfg, t.Elem, "")
+		vv, vwhy := Accept(cfg, t.Elem, "")
 		if vv == MustReject {
-			return vv, why
+			return vv, vwhy
 		}
 		if ptrToMap(t.Elem) {
 			return MustReject, "map nested directly as a map value cannot be encoded"
 		}
-		v := worst(kv, vv)
-		if t.Key.Contains(func(x *T) bool { return x.K == KPtr }) {
-			v = worst(v, Either) // pointer identity keys cannot round-trip meaningfully
+		v, why := MustAccept, ""
+		either := func(w string) {
+			if v != Either {
+				v, why = Either, w
+			}
 		}
 		if ClassOf(cfg, t.Elem, "") == CR || ClassOf(cfg, t.Key, "") == CR {
-			v = worst(v, Either) // repeated-field form inside a map entry
+			either("repeated-form-in-map-entry")
+		}
+		if kv == Either {
+			either(kwhy)
+		}
+		if vv == Either {
+			either(vwhy)
+		}
+		if t.Key.Contains(func(x *T) bool { return x.K == KPtr }) {
+			either("pointer-in-map-key") // pointer identity keys cannot round-trip meaningfully
 		}
 		if opt != "" && opt != "proto" {
-			v = worst(v, Either)
+			either("ignored-option-on-map")
 		}
-		return v, ""
+		return v, why
 	case KStruct:
-		v := MustAccept
+		v, ewhy := MustAccept, ""
 		if opt != "" {
-			v = Either // option on a struct-kind field: nothing documented
+			v, ewhy = Either, "option-on-struct" // nothing documented
 		}
 		seen := map[int]bool{}
 		for _, f := range t.Fields {
@@ -143,16 +154,18 @@ func Accept(cfg Cfg, t *T, opt string) (Verdict, string) {
 				return MustReject, fmt.Sprintf("index %d used twice", idx)
 			}
 			seen[idx] = true
-			if idx == 0 {
-				v = worst(v, Either)
+			if idx == 0 && v != Either {
+				v, ewhy = Either, "index-zero"
 			}
 			fv, why := Accept(cfg, f.T, fopt)
 			if fv == MustReject {
 				return fv, "field " + f.Name + ": " + why
 			}
-			v = worst(v, fv)
+			if fv == Either && v != Either {
+				v, ewhy = Either, why
+			}
 		}
-		return v, ""
+		return v, ewhy
 	}
 	return MustReject, "unsupported kind"
 }
